@@ -1,12 +1,14 @@
 #!/bin/bash
-# dev helper: ./mutant.sh <patch-file|-> <prop> [tier]  -- applies a patch to /repo, runs the check, reverts.
+# dev helper: ./mutant.sh <patch-file> "<props>" [tier]
+# Applies a patch to a scratch worktree of /repo under /tmp (never to /repo itself), runs the
+# repository suite and the named checks against that worktree, removes the worktree.
 set -u
-patch="$1"; prop="$2"; tier="${3:-quick}"
-cd /repo || exit 9
-if ! git diff --quiet; then echo "/repo dirty"; exit 9; fi
-if [ "$patch" = "-" ]; then git apply - || exit 9; else git apply "$patch" || exit 9; fi
+patch="$1"; props="$2"; tier="${3:-quick}"
 export GOFLAGS=-mod=mod GOPROXY=off GOSUMDB=off GOTOOLCHAIN=local
-if [ "${SUITE:-1}" = 1 ]; then go test -vet=off -count=1 ./... 2>&1 | grep -v "no test files" | tail -3; fi
+W=$(mktemp -d /tmp/mrepo.XXXXXX)
+git -C /repo worktree add -q --detach "$W" HEAD || exit 9
+trap 'git -C /repo worktree remove --force "$W" >/dev/null 2>&1; rm -rf "$W"' EXIT
+(cd "$W" && git apply "$patch") || { echo "patch does not apply"; exit 9; }
+if [ "${SUITE:-1}" = 1 ]; then (cd "$W" && go test -vet=off -count=1 ./... 2>&1 | grep -v "no test files" | tail -2); fi
 cd /verif
-for p in $prop; do ./run.sh $p $tier | grep -E "^VIOLATION|verdict=|INCONCLUSIVE|signature=" | head -${LINES_MAX:-8}; done
-git -C /repo checkout -- .
+for p in $props; do VERIF_REPO="$W" ./run.sh $p $tier | grep -E "^VIOLATION|verdict=|INCONCLUSIVE|signature=" | head -${LINES_MAX:-8} | cut -c1-220; done
